@@ -8,7 +8,9 @@ G = "ghost:contracts/ghost_dekad.py::"
 specfn("dk_start", "k:int", "int", [(None, "(ORD(k // 36, 1 + (k % 36) // 3) + 10 * (k % 3)) * 86400000000")])
 DIM = "ite(m == 2, ite(y % 4 == 0 and (y % 100 != 0 or y % 400 == 0), 29, 28), ite(m == 4 or m == 6 or m == 9 or m == 11, 30, 31))"
 RAWOK = "36 <= {k} and {k} < 36 * 10000 - 1"      # years 1..9999, the very last dekad excluded (its end date is outside datetime's range)
-O = {"frame_obligations": False}
+# calendar arithmetic over the ordinal axioms needs 2-10 s of z3 per obligation on an idle machine: a 60 s budget per encoding keeps
+# the verdict independent of what else the machine is doing
+O = {"frame_obligations": False, "by_id": [(r".", {"timeout": 60000})]}
 
 contract(G + "membership", params={"y": "int", "m": "int", "d": "int", "us": "int"},
     requires={"date": f"1 <= y and y <= 9999 and 1 <= m and m <= 12 and 1 <= d and d <= {DIM}",
